@@ -101,3 +101,43 @@ func CompareAndSwapInt64(p *int64, o, n int64) bool {
 	global.Sync("atomic.CAS")
 	return atomic.CompareAndSwapInt64(p, o, n)
 }
+
+// Pointer mirrors atomic.Pointer[T].
+type Pointer[T any] struct {
+	c core.AtomicCell
+	v atomic.Pointer[T]
+}
+
+func (x *Pointer[T]) Load() *T     { x.c.Sync("atomic.Load"); return x.v.Load() }
+func (x *Pointer[T]) Store(p *T)   { x.c.Sync("atomic.Store"); x.v.Store(p) }
+func (x *Pointer[T]) Swap(p *T) *T { x.c.Sync("atomic.Swap"); return x.v.Swap(p) }
+func (x *Pointer[T]) CompareAndSwap(o, n *T) bool {
+	x.c.Sync("atomic.CAS")
+	return x.v.CompareAndSwap(o, n)
+}
+
+type Uintptr struct {
+	c core.AtomicCell
+	v atomic.Uintptr
+}
+
+func (x *Uintptr) Load() uintptr         { x.c.Sync("atomic.Load"); return x.v.Load() }
+func (x *Uintptr) Store(v uintptr)       { x.c.Sync("atomic.Store"); x.v.Store(v) }
+func (x *Uintptr) Add(d uintptr) uintptr { x.c.Sync("atomic.Add"); return x.v.Add(d) }
+
+func AddUint32(p *uint32, d uint32) uint32 { global.Sync("atomic.Add"); return atomic.AddUint32(p, d) }
+func AddUint64(p *uint64, d uint64) uint64 { global.Sync("atomic.Add"); return atomic.AddUint64(p, d) }
+func LoadUint32(p *uint32) uint32          { global.Sync("atomic.Load"); return atomic.LoadUint32(p) }
+func LoadUint64(p *uint64) uint64          { global.Sync("atomic.Load"); return atomic.LoadUint64(p) }
+func StoreUint32(p *uint32, v uint32)      { global.Sync("atomic.Store"); atomic.StoreUint32(p, v) }
+func StoreUint64(p *uint64, v uint64)      { global.Sync("atomic.Store"); atomic.StoreUint64(p, v) }
+func SwapInt32(p *int32, v int32) int32    { global.Sync("atomic.Swap"); return atomic.SwapInt32(p, v) }
+func SwapInt64(p *int64, v int64) int64    { global.Sync("atomic.Swap"); return atomic.SwapInt64(p, v) }
+func CompareAndSwapUint32(p *uint32, o, n uint32) bool {
+	global.Sync("atomic.CAS")
+	return atomic.CompareAndSwapUint32(p, o, n)
+}
+func CompareAndSwapUint64(p *uint64, o, n uint64) bool {
+	global.Sync("atomic.CAS")
+	return atomic.CompareAndSwapUint64(p, o, n)
+}
